@@ -8,7 +8,7 @@ from proto import rng
 # the common dimension set all operands draw from: equal lengths (a, b, e), a single-item
 # dimension (c), a longer one (d); int, str and untyped items
 UNIVERSE = {
-    "a": "D:a:aa:i:i2000,i2001",
+    "a": "D:a:aa:i:i2001,i2000",      # numeric items, not stored in ascending order
     "b": "D:b:bb:s:sx,sy",
     "c": "D:c:cc:n:sp",
     "d": "D:d:dd:s:su,sv,sw",
@@ -198,6 +198,15 @@ def gen_reduce(tier, seed, universe=None, maxlen=3):
                 lines.append(f"sumto ${h + 1} ${h} " + " ".join(f"k:{l}" for l in xs))
                 h += 1
             h += 1; dh += 1
+        if xs:
+            # a target that lacks x's first letter but has a dimension of the same *name* under another
+            # letter (dimensions are identified by letter): refused like any other missing dimension
+            lines.append(f"dim $7 D:q:{NAMES[xs[0]]}:s:sm,sn")
+            lines.append(f"dset $198 $7 " + " ".join(f"${HANDLE[l]}" for l in xs[1:]))
+            lines.append(f"castto ${h} $20 $198"); h += 1
+            lines.append(f"dset $199 $7 " + " ".join(f"${HANDLE[l]}" for l in letters if l != xs[0]))
+            lines.append(f"castto ${h} $20 $199"); h += 1
+            stats["same_name_other_letter_targets"] = stats.get("same_name_other_letter_targets", 0) + 2
         # cumsum: every letter, a foreign letter, a name
         for l in xs:
             lines.append(f"cumsum ${h} $20 {l}"); h += 1
@@ -210,6 +219,10 @@ def gen_reduce(tier, seed, universe=None, maxlen=3):
                 lines.append(f"shares ${h} $24 {''.join(so) or '-'}")
                 lines.append(f"sumto ${h + 1} ${h} " + " ".join(f"k:{l}" for l in xs if l not in so))
                 h += 2
+        # mixed signs: shares below 0 and above 1 are legitimate
+        for k in range(len(xs) + 1):
+            for so in itertools.combinations(xs, k):
+                lines.append(f"shares ${h} $20 {''.join(so) or '-'}"); h += 1
         if other:
             lines.append(f"shares ${h} $24 {other[0]}"); h += 1
         for k in range(len(xs) + 1):
